@@ -76,6 +76,13 @@ func gen(r *rand.Rand, idx int, tier string) Input {
 					continue // not every tree has every child
 				}
 				name := fmt.Sprintf("root;f%03d%s", c, suffix)
+				if c%2 == 1 { // names that branch at many positions: their dictionary keys are long and share long prefixes
+					var bits []byte
+					for k := 0; k < 12; k++ {
+						bits = append(bits, "xy"[(c>>uint(k%7)+k/7)&1], '/')
+					}
+					name = fmt.Sprintf("root;pkg/%s%03d", bits, c%7)
+				}
 				if r.Intn(3) == 0 {
 					ss = append(ss, treeu.Stack{Key: []byte(name), V: uint64(1 + r.Intn(9))})
 				}
@@ -161,6 +168,7 @@ func run(in Input) lib.Result {
 	conc := merge.MergeTriesConcurrently(in.Workers, con...).(*tree.Tree)
 
 	// decoding: the merged tree through both encodings (cap far above its size, so nothing is pruned) and back
+	decStale := "None"
 	decode := func(t *tree.Tree) (string, string) {
 		const big = 1 << 20
 		nd, dd := "None", "None"
@@ -175,6 +183,13 @@ func run(in Input) lib.Result {
 		if err := t.Serialize(d, big, &b2); err == nil {
 			if t2, err := tree.Deserialize(d, bytes.NewReader(b2.Bytes())); err == nil {
 				dd = "(Some " + treeu.Coq(t2.VerifDump()) + ")"
+			}
+		}
+		// the same bytes read with a dictionary that knows none of the names (a stale snapshot): every frame gets a
+		// placeholder name derived from its key, the shape and all values must survive
+		if b2.Len() > 0 {
+			if t3, err := tree.Deserialize(dict.New(), bytes.NewReader(b2.Bytes())); err == nil {
+				decStale = "(Some " + treeu.Coq(t3.VerifDump()) + ")"
 			}
 		}
 		return nd, dd
@@ -194,7 +209,7 @@ func run(in Input) lib.Result {
 		"; c_workers := " + lib.Nat(in.Workers) +
 		"; c_m := " + lib.N(mUsed) + "; c_d := " + lib.N(dUsed) +
 		"; c_clone := " + treeu.Coq(cl.VerifDump()) +
-		"; c_dec_nodict := " + decNoDict + "; c_dec_dict := " + decDict +
+		"; c_dec_nodict := " + decNoDict + "; c_dec_dict := " + decDict + "; c_dec_stale := " + decStale +
 		"; c_src_untouched := " + lib.Bool(srcUntouched && before == after) + " |}"
 	return lib.Result{
 		Coq:        coq,
